@@ -17,6 +17,9 @@ pub mod c14;
 pub mod c15;
 pub mod c16;
 pub mod c17;
+pub mod c18;
+pub mod c19;
+pub mod c20;
 pub mod util;
 
 pub fn run(ctx: &mut Ctx) -> Result<(), String> {
@@ -38,6 +41,9 @@ pub fn run(ctx: &mut Ctx) -> Result<(), String> {
         "C15" => c15::run(ctx),
         "C16" => c16::run(ctx),
         "C17" => c17::run(ctx),
+        "C18" => c18::run(ctx),
+        "C19" => c19::run(ctx),
+        "C20" => c20::run(ctx),
         other => return Err(format!("unknown property {other}")),
     }
     Ok(())
@@ -64,6 +70,9 @@ pub fn rule(prop: &str) -> &'static str {
         "C15" => c15::RULE,
         "C16" => c16::RULE,
         "C17" => c17::RULE,
+        "C18" => c18::RULE,
+        "C19" => c19::RULE,
+        "C20" => c20::RULE,
         _ => "",
     }
 }
